@@ -48,6 +48,15 @@ def run(res, args):
         s = fr[0] + b"$GP,1*00\r\n" + fr[1] + fr[2] + b"\n"
         ins.append((s, "writer away for 2.5 s per call"))
         cases.append("filter %s %d %d 2500000 4096 -" % (gen.hx(s), k % 2, (k >> 1) % 2))
+    # a silence of 1.5 s in the middle of the input: inside a frame's payload, inside its leader, inside text between
+    # frames ("however the input is chunked in time": what is written may not depend on when the bytes arrive)
+    for k in range(3 if res.tier == "quick" else 12):
+        fr = [gen.rand_frame(rng, small=True) for _ in range(3)]
+        text = b"$GNGGA,123519,4807.038,N,01131.000,E,1,08,0.9,545.4,M,46.9,M,,*47\r\n"
+        s = fr[0] + text + fr[1] + fr[2]
+        at = [len(fr[0]) + len(text) + max(6, len(fr[1]) // 2), len(fr[0]) + len(text) + 2, len(fr[0]) + 20][k % 3]
+        ins.append((s, "silence of 1.5 s " + ["inside a frame", "inside a leader", "inside text"][k % 3]))
+        cases.append("filter %s %d %d 0 %s m1500@%d" % (gen.hx(s), k % 2, (k >> 1) % 2, rng.choice(["7", "4096", "1"]), at))
     scases = ["stream %d debug %s" % (framing.T0, gen.hx(s)) for s, _ in ins]
     simpl, smodel = framing.run_both(res, "stream", scases)
     obs, e = common.run_app_test(fbin, cases, "C10")
